@@ -27,7 +27,8 @@ CASES = [
  ("C02", "pipeline/runner.py", "                and not is_compatible_data(None, itype)\n                and not required\n", "                and not is_compatible_data(None, itype)\n", "break"),
  ("C02", "pipeline/runner.py", "        elif status == \"in-progress\":\n            raise PipelineError(f\"pipeline cycle encountered at {node}\")\n", "", "break"),
  ("C02", "pipeline/runner.py", "        if self.data_type is not None and not is_compatible_data(val, self.data_type):", "        if not self.data_type is None and not is_compatible_data(val, self.data_type):", "keep"),
- ("C03", "stats.py", "    if n >= 0 and n < N:", "    if n > 0 and n < N:", "break"),
+ ("C03", "stats.py", "    if n >= 0 and n < N:", "    if n > 0 and n < N:", "keep"),
+ ("C03", "stats.py", "    if n >= 0 and n < N:", "    if n >= 0 and n <= N:", "break"),
  ("C03", "stats.py", "    if n >= 0 and n < N:", "    if 0 <= n < N:", "keep"),
  ("C03", "stats.py", "    if n == 0:\n        return np.empty(0, np.int64)\n", "", "break"),
  ("C03", "basic/topn.py", "        if n is None:\n            n = self.config.n or -1", "        if not n:\n            n = self.config.n or -1", "break"),
